@@ -62,13 +62,14 @@ def make_job(rng, seed, nfiles=(2, 4), mode=None, small=True, restart=False):
 
 
 def header(cc, name):
-    return dict(name=name, cfg=cc.cfg(), nreaders=NREADERS + 2, desc=cc.describe())
+    return dict(name=name, cfg=cc.cfg(), nreaders=NREADERS + 3, desc=cc.describe())
 
 
 def stepped(env, digital_rf, cc, ops, name, rng, kill_at=None, every=1):
     """snapshot + reader passes + listing before every operation; optionally a real SIGKILL at stop `kill_at`"""
     boxes = {r: [None] for r in range(1, NREADERS + 1)}
     abox = [None]
+    abox2 = [None]
     born = {r: 1 + (r - 1) * rng.randint(3, 12) for r in boxes}
 
     def observe(run, when, op):
@@ -83,6 +84,7 @@ def stepped(env, digital_rf, cc, ops, name, rng, kill_at=None, every=1):
             if n % 2 == 0:
                 # a reader over two top-level directories: an (emptied) archive of the channel and the live directory
                 run.reader_pass(NREADERS + 2, abox, digital_rf, abox[0] is None, archive=True)
+                run.reader_pass(NREADERS + 3, abox2, digital_rf, abox2[0] is None, archive=True, archive_last=True)
             if n % 3 == 0:
                 run.listing(digital_rf)
         else:
